@@ -1,5 +1,5 @@
 """Helper for the seeded-change corpus (not part of any registered check).
-  confirm <prop> <srcdir> <worktree>   : verify a sub-agent's change (suite still 92/3, demo fails with / passes without),
+  confirm <prop> <srcdir> <worktree> [offset] : verify a sub-agent's change (suite still 92/3, demo fails with / passes without),
                                          then store it as /verif/seeded/<prop>-<name>/ with meta.json
   run [<id> ...]                        : apply each stored patch to /repo, run the property's quick check, undo, report"""
 import sys, os, json, subprocess, shutil, glob
@@ -14,10 +14,11 @@ def suite(wt):
     rc, out = sh([PY, '-m', 'pytest', '-q', '-p', 'no:cacheprovider', 'tests'], cwd=wt)
     return out.strip().split('\n')[-1]
 
-def confirm(prop, src, wt):
+def confirm(prop, src, wt, offset=0):
     res = []
     for d in sorted(glob.glob(os.path.join(src, 'm*'))):
         name = os.path.basename(d)
+        if offset: name = 'm%d' % (int(name[1:]) + offset)
         patch = os.path.join(d, 'patch.diff'); demo = os.path.join(d, 'demo.py')
         if not (os.path.exists(patch) and os.path.exists(demo)): continue
         sh(['git', 'checkout', '--', '.'], cwd=wt); sh(['git', 'clean', '-fdq'], cwd=wt)
@@ -69,5 +70,5 @@ def run(ids):
     return out
 
 if __name__ == '__main__':
-    if sys.argv[1] == 'confirm': confirm(sys.argv[2], sys.argv[3], sys.argv[4])
+    if sys.argv[1] == 'confirm': confirm(sys.argv[2], sys.argv[3], sys.argv[4], int(sys.argv[5]) if len(sys.argv) > 5 else 0)
     else: run(sys.argv[2:])
